@@ -25,7 +25,8 @@ RULE = ('A: Hypothesis draws orchestration scenarios with 0-3 borrowers (with-te
         'searchers answering fresh for borrowed copies; non-trivial = >= 1 failed module held by some borrower, or a '
         'flavour mismatch in front of a matching borrower. B: Hypothesis draws directories holding <name>.py, '
         '<name>.json, <name>, upper/lower-case variants and asks PyFileBorrower / AnyFileBorrower(exts) for names; '
-        'non-trivial = a file with a non-listed extension or other letter case is present. Distinct = case hash.')
+        'non-trivial = a file with a non-listed extension or other letter case is present. Distinct = case hash. Warm-up '
+        'compile() calls and the complete small scope as for C07.')
 ASSUMPTIONS = [
     'a module counts as failed when no source holds a usable text or its code generation raised',
     'B: the borrower readers use the matching options mibdump sets (lowcaseMatching off)',
